@@ -6,6 +6,8 @@ import TlsModel.Render
 import TlsModel.States
 import TlsModel.Serialize
 import TlsModel.ValueParse
+import TlsModel.Accessors
+import TlsModel.Gen.Ciphers
 open Tls
 
 abbrev TB := UInt8 × Nat
@@ -129,9 +131,12 @@ def runSer (op : String) (value : String) : String :=
 
 def rBool (b : Bool) : String := if b then "1" else "0"
 
-/-- `rand_time()` as repaired: big-endian u32 of the first four bytes, 0 if fewer than 4 -/
-def randTime (random : List TB) : Nat := if random.length ≥ 4 then beVal (random.take 4) else 0
-def randBytes (random : List TB) : List TB := if random.length ≥ 4 then random.drop 4 else []
+/-- `(Acc version random sid ciphers comp ext rand_time rand_bytes [cipher_suites] [get_ciphers] get_version)`: the trait
+    accessors of a parsed hello, through the accessor model and the regenerated registry table -/
+def rAcc (v : HelloView TB) (withGet : Bool) : String :=
+  let suites := "[" ++ " ".intercalate ((cipherSuites Tls.Gen.runtimeCiphers v.ciphers).map fun o => match o with
+    | some r => toString r.id | none => "none") ++ "]"
+  s!"(Acc {v.version} {rS v.random} {rOpt rS v.sessionId} {rList rN v.ciphers} {rList rN v.comp} {rOpt rS v.ext} {randTime v.random} {rS (randBytes v.random)} {suites} {if withGet then suites else "[]"} {if withGet then v.version else 0})"
 
 def handle (line : String) : String :=
   let trimmed := line.trimAscii.toString
@@ -181,6 +186,15 @@ def handle (line : String) : String :=
   | ["exts_server", h] => run parseServerHelloExtensions (rList rExtension) h
   | ["ext_sni_hostname", h] => run parseSniHostname rPairNS h
   | ["ext_unknown", h] => run parseExtensionUnknown rExtension h
+  | ["hello_acc", "tls", h] =>
+    withHex h fun i => match parseClientHello i with
+      | .ok _ c => "ok " ++ rAcc c.view true
+      | r => rRes (fun _ => "") r
+  | ["hello_acc", "dtls", h] =>
+    withHex h fun i => match parseDtlsMessageHandshake i with
+      | .ok _ (.handshake ⟨_, _, _, _, _, .clientHello c⟩) => "ok " ++ rAcc c.view false
+      | .ok _ _ => "badmsg"
+      | r => rRes (fun _ => "") r
   | ["ext_type_of", op, h] =>
     match dispatcherOf op with
     | some d => run (parseExtensionD d) (fun e => toString e.typeOf) h
